@@ -187,7 +187,7 @@ func (f *fmtG) drawSub(t *rapid.T, lab string, allowInf bool) (ref.Pt, string) {
 
 // ---- grammar of point byte strings ----------------------------------------------------------------
 
-var bodyClasses = []string{"sub", "sub", "sub", "sub", "inf", "inf", "cof", "cof", "tors2", "tors2", "tors3", "tors3", "nonsq", "nonsq",
+var bodyClasses = []string{"sub", "sub", "sub", "sub", "inf", "inf", "cof", "cof", "tors2", "tors2", "tors3", "tors3", "sub+tors3", "nonsq", "nonsq",
 	"offcurve", "offcurve", "lattice", "lattice", "zero", "random"}
 
 var coordClasses = []string{"=p", "p+1", ">p", "allones", "2^bits-1", "p-1", "0", "(p-1)/2", "(p+1)/2"}
@@ -203,7 +203,7 @@ func (f *fmtG) genPoint(t *rapid.T, lab string, forceMode int) ([]byte, []string
 	if body == "tors2" && len(pl.tors) == 0 {
 		body = "cof"
 	}
-	if body == "tors3" && len(pl.tors3) == 0 {
+	if (body == "tors3" || body == "sub+tors3") && len(pl.tors3) == 0 {
 		body = "cof"
 	}
 	if f.NoFlag && (body == "inf") {
@@ -236,6 +236,10 @@ func (f *fmtG) genPoint(t *rapid.T, lab string, forceMode int) ([]byte, []string
 		x, y = p.X, p.Y
 	case "tors3":
 		p := pl.tors3[rapid.IntRange(0, len(pl.tors3)-1).Draw(t, lab+"t")]
+		x, y = p.X, p.Y
+	case "sub+tors3":
+		// order 3r: subgroup point + point of order 3
+		p := E.Add(pl.sub[rapid.IntRange(0, len(pl.sub)-1).Draw(t, lab+"s3")], pl.tors3[rapid.IntRange(0, len(pl.tors3)-1).Draw(t, lab+"t")])
 		x, y = p.X, p.Y
 	case "nonsq":
 		x, y = pl.nonsq[rapid.IntRange(0, len(pl.nonsq)-1).Draw(t, lab+"n")], pickY()
